@@ -11,6 +11,9 @@ TIE = ["Nsq.Tie.Wire", "Nsq.Tie.WireFn"]
 PROPS = ["Nsq.Props.C07", "Nsq.Props.C07Path", "Nsq.Props.C07Fn"]
 
 
+from props import e9_dq  # noqa: E402
+
+
 def run(ctx):
     ctx.trusted += [
         "translator tools/go2lean, kind bytes: Message.WriteTo, decodeMessage, SendFramedResponse, SendResponse and "
@@ -30,9 +33,10 @@ def run(ctx):
         "PARTIAL: crypto/tls, compress/flate and golang/snappy are assumed to deliver what was written "
         "(hypothesis dec (enc s) = s of upgrade_loses_nothing_partial); the end-to-end oracle exercises them "
         "on every negotiated combination but no theorem covers their internals",
-        "PARTIAL: go-diskqueue v1.1.0 is assumed to return each record put, once, in order (its record format "
-        "is modelled: dq_roundtrip); its file I/O is exercised by the end-to-end oracle (tiny mem-queue-size "
-        "and max-bytes-per-file, restart) but not proved",
+        "go-diskqueue v1.1.0 returning each record put, once, in order, byte-identical, also across Close/New, is no "
+        "longer an assumption: it is Props.E9DiskQueue.reachable_Q / diskqueue_law over the model of its files and "
+        "positions (record format: dq_roundtrip), tied by Tie.DiskQueue + harness/e9 on the real package (engine E9 leg "
+        "below); what remains assumed of it is listed under trusted_base (OS I/O errors, metadata text, 2 GiB bodies)",
         "frames are within the client's int32 length (size_le_limits: max-msg-size + 30 < 2^31)",
         "connection model: IDENTIFY (feature upgrades, output buffer change) is accepted only before SUB and "
         "message frames are sent only to subscribed clients — as protocolV2.IDENTIFY / messagePump enforce",
@@ -73,6 +77,8 @@ def run(ctx):
     else:
         run_e2e(ctx, ebin, corr_broken, combos=ctx.budget(24, 0), n=ctx.budget(40, 30))
         run_pubsub(ctx, ebin, corr_broken, ctx.budget(40, 400))
+    # --- engine E9: the real go-diskqueue against its model (discharges the disk-queue assumption) -----
+    e9_dq.leg(ctx, corr_broken)
     # --- search phase ---------------------------------------------------------------------------
     if (ctx.broken_ties or corr_broken) and not ctx.violations:
         limit = ctx.budget(60, 600)
